@@ -93,6 +93,8 @@ type Provider struct {
 	Drift           map[string]cloudprovider.DriftReason // by NodeClaim name
 	Repair          []cloudprovider.RepairPolicy
 	InstanceTypeErr map[string]error
+	// OnList runs after List has taken its snapshot and before it returns (no lock held).
+	OnList func()
 	// OnCreate is invoked (outside the lock) after a successful launch.
 	OnCreate func(inst *Instance)
 }
@@ -528,6 +530,12 @@ func (p *Provider) List(ctx context.Context) ([]*v1.NodeClaim, error) {
 		}
 	}
 	sort.Slice(out, func(i, j int) bool { return out[i].Status.ProviderID < out[j].Status.ProviderID })
+	if h := p.OnList; h != nil {
+		// the listing is computed (the snapshot is taken); the response is still in flight: the hook may change the world
+		p.mu.Unlock()
+		h()
+		p.mu.Lock()
+	}
 	return out, nil
 }
 
